@@ -210,7 +210,14 @@ func (configgen *ConfigGeneratorImpl) buildGatewayListeners(builder *ListenerBui
 	cs := builder.connectionSettings
 
 	listeners := make([]*listener.Listener, 0)
-	for _, ml := range mutableopts {
+	// Emit the listeners in a fixed order: the same state must give the same LDS response in every generation.
+	listenerNames := make([]string, 0, len(mutableopts))
+	for name := range mutableopts {
+		listenerNames = append(listenerNames, name)
+	}
+	sort.Strings(listenerNames)
+	for _, name := range listenerNames {
+		ml := mutableopts[name]
 		ml.mutable.Listener = buildGatewayListener(*ml.opts, ml.transport)
 
 		// Set listener-level buffer limit from ConnectionSettings.
